@@ -23,7 +23,8 @@ func vhOffer(sel, k int) (any, bool) {
 // (0 none, 1 SetNoNesting(b) before the push), firstIsStack
 func VH_C13_Push(p []int) {
 	n, m := p[0], p[1]
-	pre := vhArbitraryStack(n, 0, false, vhOptMask&^ronly, 0, 0)
+	// with and without a capacity: a refused Stack must not use up room
+	pre := vhArbitraryStack(n, 0, false, vhOptMask&^ronly, 2, m+1)
 	s, cfg := pre.s, pre.cfg
 	model := vhCopy(pre.model)
 	nesting := false
@@ -46,6 +47,9 @@ func VH_C13_Push(p []int) {
 	for k := range vals {
 		v, isStack := vhOffer(nondetChoice(8), k)
 		vals[k] = v
+		if cfg.cap != 0 && len(model) >= cfg.cap-1 {
+			continue // no room left: dropped
+		}
 		if !(isStack && bit) {
 			model = append(model, v)
 			if isStack {
